@@ -29,7 +29,7 @@ VARIABLE l
 
 (* the name sets the decorator form stands for, and whether every decoration STEP is admissible *)
 SelOf(e) ==
-  CASE e.form = "names" -> [tag |-> "ok", po |-> Rng(e.po), kwo |-> Rng(e.kwo)]
+  CASE e.form \in {"names", "names_then_annotate_ret"} -> [tag |-> "ok", po |-> Rng(e.po), kwo |-> Rng(e.kwo)]      \* (a return annotation recorded afterwards changes nothing)
     [] e.form = "start" -> StartForm(e.base, e.s, Rng(e.extra))
     [] e.form = "end"   -> EndForm(e.base, e.s, Rng(e.extra))
     [] e.form = "auto"  -> AutoForm(e.base, Rng(e.exc))
@@ -45,7 +45,7 @@ SelOf(e) ==
 StepsAdmissible(e, sel) ==
   /\ sel.tag = "ok"
   /\ Admissible(e.base, sel.po, sel.kwo)
-  /\ (e.form = "names" /\ e.order = "po_first")  => Admissible(e.base, sel.po, {})
+  /\ (e.form \in {"names", "names_then_annotate_ret"} /\ e.order = "po_first")  => Admissible(e.base, sel.po, {})
   /\ (e.form = "names" /\ e.order = "kwo_first") => Admissible(e.base, {}, sel.kwo)
   /\ (e.form \in {"start_over_names", "end_over_names"}) => Admissible(e.base, Rng(e.po), Rng(e.kwo))
   /\ (e.form = "names_over_start") => (Admissible(e.base, {}, StartForm(e.base, e.s, {}).kwo) /\ Admissible(e.base, Rng(e.po), StartForm(e.base, e.s, {}).kwo))
